@@ -526,6 +526,8 @@ const COMMENTS: &[&str] = &[
     "; it's \"quoted\"; and again; 'single'",
     ";\t\ttabs\tin\ta\tcomment",
     "; x3000 #5 r0 .orig .end .break",
+    // commented-out code in a tab-indented file, other control characters, a lone CR in the middle
+    ";\tAND\tR0, R0, #0", "; was:\tadd r1, r1, #-2", ";\thalt", "; form\x0cfeed .fill x1", "; vt\x0b.fill x2", "; bell\x07 add r0 r0 r0", "; esc\x1b[0m halt",
     // longer than any fixed-size line buffer
     "; ---------------------------------------------------------------------------------------------------------------------------------------------------------------------------------------------------------------------------------------------------------------------------------------------------------------------------- long line",
 ];
